@@ -72,6 +72,23 @@ ZoomFaithful(c, hi, r, recs, cov(_), f(_)) ==
                     /\ recs[i][5] = st.min /\ recs[i][6] = st.max
                     /\ recs[i][7] = st.sum /\ recs[i][8] = st.sumsq
 
+\* the same with one value token standing for +infinity: a record whose span holds an infinite base reports infinite sums
+\* (not representable here: only its extent and covered-base count are judged); every other record must be exact - in
+\* particular no NaN may leak into a record of finite data
+ZoomFaithfulX(c, hi, r, recs, cov(_), f(_), special(_)) ==
+  /\ \A i \in 1..Len(recs) : /\ recs[i][1] = c
+                             /\ recs[i][2] <= recs[i][3]
+                             /\ recs[i][3] - recs[i][2] <= r
+  /\ \A i \in 2..Len(recs) : recs[i-1][3] <= recs[i][2]
+  /\ \A b \in 0..(hi - 1) : cov(b) => \E i \in 1..Len(recs) : recs[i][2] <= b /\ b < recs[i][3]
+  /\ \A i \in 1..Len(recs) :
+       LET S == {b \in recs[i][2]..(recs[i][3] - 1) : cov(b)} IN
+       /\ recs[i][4] = Cardinality(S)
+       /\ (S # {} /\ ~(\E b \in S : special(b))) =>
+               LET st == Stats(S, f) IN
+               /\ recs[i][5] = st.min /\ recs[i][6] = st.max
+               /\ recs[i][7] = st.sum /\ recs[i][8] = st.sumsq
+
 \* a zoom range query [s,e) must return every record intersecting it, in order, and nothing
 \* lying wholly outside [s,e] (touching records may be included)
 ZoomQueryOK(recs2, s, e, res) ==   \* recs2, res: sequences of <<start, end>>
